@@ -94,10 +94,12 @@ class StepUnit(corr.Unit):
             "SGreedy" if r["strategy"] == "greedy" else "SBalanced", opts, world, tbl, exp)
 
     # ---- the documented rule, stated independently on implementation behaviour (first-order consequences)
+    pred_enabled = True
+
     def check_property(self, case, out):
         r, i = case["rec"], case["i"]
         st, S = r["steps"][i], r["static"]
-        if i in r["strat_errors"]:
+        if i in r["strat_errors"] or not self.pred_enabled:
             return []
         pre, post = st["pre"], st["post"]
         eps = S["eps"]
@@ -146,6 +148,7 @@ def run(tier):
     sd = C.seed()
     UNIT.records = sim.pool(sd, tier, strategies=("greedy", "balanced"), n_slow=0)
     UNIT.max_steps_per_run = 3 if tier == "quick" else 12
+    UNIT.pred_enabled = True
     old = C.Report.add_violation
 
     def add_violation(self, cls, what, inp):
